@@ -517,6 +517,8 @@ pub struct Server {
     pub confs: Vec<erbium::config::SharedConfig>,
     pub cur: usize,
     pub ids: HashSet<Ipv4Addr>,
+    /// C13 only: a DHCPNAK counts as a reply
+    pub nak_is_reply: bool,
 }
 
 impl Server {
@@ -543,6 +545,7 @@ impl Server {
             confs,
             cur: 0,
             ids: HashSet::new(),
+            nak_is_reply: false,
         })
     }
 
@@ -570,6 +573,7 @@ impl Server {
         let conf = self.confs[self.cur].clone();
         let ids = self.ids.clone();
         let sip = server_ip(m.subnet);
+        let nak_is_reply = self.nak_is_reply;
         let pool = &mut self.pool;
         let b2 = bytes.clone();
         let r = guard::timed(&bytes, move || {
@@ -586,6 +590,11 @@ impl Server {
             };
             let c = conf.try_read().expect("config lock");
             match dhcp::handle_pkt(pool, &req, ids, &c) {
+                Ok(rep) if !nak_is_reply && rep.options.get_raw_option(&dhcppkt::DhcpOption::new(53)).and_then(|v| v.first().copied()) == Some(6) => {
+                    // a DHCPNAK assigns nothing and promises nothing: for every property but C13 (which speaks about which
+                    // messages get ANY reply) it is a refusal
+                    Ok(Outcome::Refused("Nak".into()))
+                }
                 Ok(rep) => {
                     let wire = rep.serialise();
                     Ok(Outcome::Reply(Reply {
@@ -686,7 +695,8 @@ impl<'a> HistoryRun<'a> {
         } else {
             None
         };
-        let srv = Server::new(w, path)?;
+        let mut srv = Server::new(w, path)?;
+        srv.nak_is_reply = prop == Prop::C13;
         let twin = if prop == Prop::C18 {
             Some(Server::new(
                 w,
